@@ -130,10 +130,21 @@ def run(ctx):
                 for api in ("rdf:0", "recvdata:0"):
                     frag_sessions.append(({}, [("chunk", b"".join(f.enc() for f in frames))], [api] * 2))
                     frag_meta.append((frames, api, op, data))
+                # recv() and its other spellings (next(ws), iteration — every other session): the message, then the NEXT one
+                # (an empty message is a message: what follows it is still read)
+                frag_sessions.append(({}, [("chunk", b"".join(f.enc() for f in frames) + F(1, b"z").enc())], ["recv"] * 3))
+                frag_meta.append((frames, "recv", op, data))
     for (frames, api, op, data), (impl, model, ws, sock, line) in zip(frag_meta, rx.run_sessions(ctx, "session:fragmented", frag_sessions)):
         outs = rx.results(impl)
         ctx.case(key=line, nontrivial=True, cls=f"fragmented:api={api}:op={op}:frags={len(frames)}:empty-first={int(not frames[0].data)}")
         want = (f"R:{op}:1:" if api == "rdf:0" else f"D:{op}:") + common.summarize(data)
+        if api == "recv":
+            want = ("T:" if op == 1 else "B:") + common.summarize(data)
+            if outs[:3] != [want, "T:" + common.summarize(b"z"), "X:CLOSED"]:
+                ctx.violate("frame-equals-rfc-decoding", "message-or-its-successor-not-yielded-by-recv-or-iteration",
+                            {"op": line[:300], "frames": [f.desc() for f in frames], "api": "recv / next(ws) / iteration"},
+                            [want, "T:" + common.summarize(b"z"), "X:CLOSED"], outs[:3], size=10 * len(frames) + len(data))
+            continue
         if outs[0] != want or outs[1] != "X:CLOSED":
             ctx.violate("frame-equals-rfc-decoding", "fragmented-message-wrong-opcode-or-payload" if not outs[0].startswith("X:") else
                         "fragmented-message-" + outs[0][2:], {"op": line[:300], "frames": [f.desc() for f in frames], "api": api},
